@@ -125,7 +125,7 @@ func registerAll() {
 	}
 	propTable["C10"] = &PropSpec{
 		ID:    "C10",
-		Rules: []string{"R4", "R5", "R1", "L8"},
+		Rules: []string{"R4", "R5", "R1", "L8", "N1", "L9", "L6"},
 		Explanation: "every exported mutator of Array/OrderedMap (computed from may-effects on slab state over a closure-granular call graph) calls notifyParentIfNeeded on every success path (extra-data-only mutators may store the standalone root on the not-inlined edge instead); every child handed out by lookup/mutable iteration or stored by Set/Insert passes setCallbackWithChild on every success path with the container's own inline limit (array: maxInlineArrayElementSize; map: maxInlineMapValueSize of that element's key storable size); read-only iterators arm the mutation callback; whatever replaces a container's root carries the id read from the previous root before any id change, and ValueID does not depend on the inlined state.",
 		NotDecided: "that the callback finds the right element after arbitrary parent restructuring (mutableElementIndex arithmetic), 'inlined exactly when it fits' (value-dependent), validity of ancestors.",
 		Technique:  "must-pass-through path rule over go/ssa CFG with interprocedural must-notify summaries; may-effect summaries to compute the mutator set; value-flow checks on callback arguments and root ids",
@@ -167,7 +167,7 @@ func registerAll() {
 	}
 	propTable["C12"] = &PropSpec{
 		ID:    "C12",
-		Rules: []string{"K1", "R6", "X1", "R1", "R3"},
+		Rules: []string{"K1", "R6", "X1", "R1", "R3", "L9"},
 		Explanation: "the collision-limit rejection is control dependent on level == 0, on a comparison with maxCollisionLimitPerDigest and on errors.As(KeyNotFoundError) of Get with the same key parameter (so updates of existing keys are never refused), and no mutation, store or allocation precedes it on any path; every element kind (single element, inline group, external group) and both element-list kinds are handled by every family type switch or by an erroring default.",
 		NotDecided: "dictionary semantics under arbitrary digest assignments; correctness of spill/collapse transitions (value-dependent).",
 		Technique:  "control-dependence slices and backward reachability on go/ssa; type-switch exhaustiveness",
